@@ -1396,3 +1396,58 @@ def rule_instantiated_siblings(ctx, rep: Report, rid="S10"):
                     f"{nme}.__init__ (and the base constructor it calls) never assigns self.{attr}: namespaces() / to_cpp() / the emitters read "
                     f"it on every instantiated node, so this kind of node fails or is attributed to the wrong scope",
                     f"{prog.cls(nme).mod.rel}:{prog.cls(nme).node.lineno}")
+
+
+def rule_argument_roles(ctx, rep: Report, rid="S11"):
+    """The substitution primitives take two parallel lists - the template's parameter *names* and the concrete
+    *instantiations* - and every method on the way hands them on.  At each call inside the instantiator the expression
+    bound to a parameter called `...typenames...` must itself be a typenames value (a `.typenames` attribute, or a
+    name / parameter called `...typenames...`), and likewise for `...instantiations...`: swapping the two lists is
+    type-correct Python, raises nothing and leaves every `T` unsubstituted."""
+    prog = ctx.prog
+    eff = effects_engine(ctx)
+    n = 0
+
+    def role_of(e: ast.AST) -> Optional[str]:
+        if isinstance(e, ast.BinOp) and isinstance(e.op, ast.Add):
+            a, b = role_of(e.left), role_of(e.right)
+            return a if a == b else (a or b if (a is None or b is None) else "mixed")
+        if isinstance(e, ast.Call) and unparse(e.func) in ("list", "deepcopy", "copy.deepcopy", "copy.copy", "tuple") and e.args:
+            return role_of(e.args[0])
+        last = e.attr if isinstance(e, ast.Attribute) else (e.id if isinstance(e, ast.Name) else None)
+        if last is None:
+            return None
+        if "typenames" in last:
+            return "typenames"
+        if "instantiations" in last:
+            return "instantiations"
+        return None
+    for fid in sorted(eff.funcs, key=repr):
+        if not fid.rel.startswith(TI):
+            continue
+        mi, fn, ci = eff.funcs[fid]
+        for c in walk_no_nested(fn):
+            if not isinstance(c, ast.Call):
+                continue
+            callees = [x for x in eff.resolve_call(c, mi, ci, fn) if x in eff.funcs and x.rel.startswith(TI)]
+            for cal in callees[:1]:
+                cmi, cfn, cci = eff.funcs[cal]
+                drop = cci is not None and not any(unparse(d) in ("staticmethod",) for d in cfn.decorator_list)
+                try:
+                    b = bind_call(cfn, c, drop_self=drop)
+                except AnalysisError:
+                    continue
+                for pn, av in b.items():
+                    want = "typenames" if "typenames" in pn else ("instantiations" if "instantiations" in pn else None)
+                    if want is None:
+                        continue
+                    got = role_of(av)
+                    if got is None:
+                        continue
+                    n += 1
+                    rep.add(rid, f"roles:{fid.qual}->{cal.qual}:{pn}", got == want,
+                            f"`{unparse(av)[:40]}` (a list of {got}) is handed to parameter `{pn}` of {cal.qual}: the parameter names and the "
+                            f"concrete types change places, nothing matches and the template parameters stay in the instantiated signatures",
+                            f"{mi.rel}:{c.lineno}", nontrivial=(got != want))
+    if n < 15:
+        raise AnalysisError(f"{rep.prop}/{rid}: only {n} typenames/instantiations hand-overs found (15 expected)")
